@@ -44,12 +44,19 @@ func udfOptionTypes(name string) []reflect.Type {
 	return out
 }
 
+// lookalikes: STRING values spelled like another literal kind - duration, int, float, bool,
+// regex, lambda, star, a negative number, a reference, a list.  The law: an argument keeps its
+// TYPE and value through every re-serialisation.
+var lookalikes = []string{"'1m'", "'30s'", "'10'", "'1.5'", "'TRUE'", "'/x/'", "'lambda: \"x\"'", "'*'", "'-1'", "'1h'", "'\"ref\"'", "'15m'"}
+
 type gen struct {
 	g   *grammar
 	rnd *rand.Rand
 	// 0: plain first spelling of every literal class (systematic sweeps); 1: random spellings
 	rich    bool
 	zero    bool // every argument is the zero value of its type ('' 0 0.0 0s FALSE)
+	look    int  // > 0: string arguments are strings that LOOK like another literal kind (lookalikes[look-1], rotating)
+	lookK   int  // string arguments handed out in the current call
 	varKind map[string]reflect.Type
 }
 
@@ -152,6 +159,12 @@ func (x *gen) argText(t reflect.Type, vars map[string]reflect.Type) (string, boo
 			}
 		}
 	}
+	if x.look > 0 && (t == stringType || t == ifaceType) {
+		// every string argument of the call gets a different look-alike (duplicates are often invalid)
+		l := lookalikes[(x.look-1+x.lookK)%len(lookalikes)]
+		x.lookK++
+		return l, true
+	}
 	if x.zero {
 		switch {
 		case t == stringType, t == ifaceType:
@@ -215,6 +228,7 @@ func (x *gen) argText(t reflect.Type, vars map[string]reflect.Type) (string, boo
 // callText: "name(args)" for a member; false if an argument type cannot be written.
 func (x *gen) callText(m member, vars map[string]reflect.Type, nodeVars []string) (string, bool) {
 	var args []string
+	x.lookK = 0
 	n := len(m.In)
 	for i, t := range m.In {
 		if m.Variadic && i == n-1 {
@@ -222,6 +236,9 @@ func (x *gen) callText(m member, vars map[string]reflect.Type, nodeVars []string
 			cnt := 1
 			if x.rich {
 				cnt = x.rnd.Intn(4)
+			}
+			if x.look > 0 {
+				cnt = 3
 			}
 			for j := 0; j < cnt; j++ {
 				if et.Kind() == reflect.Interface && et.NumMethod() > 0 || isKindType(et) {
